@@ -293,12 +293,16 @@ def gc_plan(tier, s):
             dict(profile="big16", n=16, cap=40, steps=1200, seed=s * 100 + 4, window=30),
             dict(profile="mixed", n=1, cap=8, steps=1500, seed=s * 100 + 5, window=8),
             dict(profile="pairs", n=2, cap=28, steps=500, seed=s * 100 + 6, window=28),
+            dict(profile="fan", n=16, cap=64, steps=1500, seed=s * 100 + 7, window=24),          # a hub with 16 labels, 16 members
+            dict(profile="high", n=16, cap=256, steps=1500, seed=s * 100 + 8, window=30),        # ids 226..255
+            dict(profile="world", n=16, cap=64, steps=2500, seed=s * 100 + 9, window=11),        # twins + scripts + slices in one history
         ]
     plan = []
     k = 0
     for n in (1, 2, 3, 4, 8, 16):
         for (prof, cap, win, steps) in (("mixed", 16, 10, 6000), ("mixed", 256, 60, 6000), ("groups14", 64, 28, 5000),
-                                        ("big16", 48, 36, 4000), ("mixed", 6, 6, 4000)):
+                                        ("big16", 48, 36, 4000), ("mixed", 6, 6, 4000), ("fan", 64, 24, 4000), ("high", 256, 30, 4000),
+                                        ("world", 64, 11, 6000), ("pairs", 28, 28, 1500)):
             k += 1
             plan.append(dict(profile=prof, n=n, cap=cap, steps=steps, seed=s * 1000 + k, window=win))
     return plan
@@ -351,7 +355,7 @@ def plan_gc(run, prop, tier):
     # E3
     e3_drive(run, acc, gc_plan(tier, s))
     if prop != "C05":
-        e3_drive(run, acc, twin_plan(tier, s)[:2] if tier == "quick" else twin_plan(tier, s), label="E3 twins")
+        e3_drive(run, acc, twin_plan(tier, s)[1:3] if tier == "quick" else twin_plan(tier, s), label="E3 twins")
     if prop in ("C01", "C02", "C03"):
         # merge and slice are calls like any other for these properties (C01 names them): scenarios with reads, long traces
         e4_merge(run, acc, "trees g<=2 x h<=3, reads", cfg_mergegen(6, [0, 1], [1, 2, 3], 2, 3, 0, True), [(2, 6, 0)])
@@ -383,7 +387,8 @@ def e1_world(run, acc, tier):
 
 def twin_plan(tier, s):
     if tier == "quick":
-        return [dict(profile="twin", n=2, cap=24, steps=2500, seed=s * 100 + 11, window=10),
+        return [dict(profile="world", n=16, cap=64, steps=2500, seed=s * 100 + 14, window=11),
+                dict(profile="twin", n=2, cap=24, steps=2500, seed=s * 100 + 11, window=10),
                 dict(profile="twin", n=16, cap=256, steps=2000, seed=s * 100 + 12, window=30),
                 dict(profile="twin", n=1, cap=12, steps=1500, seed=s * 100 + 13, window=8)]
     return [dict(profile="twin", n=n, cap=cap, steps=6000, seed=s * 1000 + 50 + i, window=w)
